@@ -5,7 +5,7 @@ from __future__ import annotations
 import ast
 
 from .. import AnalysisError
-from ..astutil import bind_call, deref, names_in, raises_class, walk_stmts
+from ..astutil import unpacked_pair, bind_call, deref, names_in, raises_class, walk_stmts
 from ..cfg import cfg_of
 from ..consteval import ConstEval, NotConstant
 from ..model import src_of
@@ -182,11 +182,11 @@ def run(ctx):
         for cs in f.calls:
             if cc in cs.callees:
                 nsites += 1
-                par = prog.parents(f).get(id(cs.node))
-                if not (isinstance(par, ast.Assign) and isinstance(par.targets[0], ast.Tuple) and len(par.targets[0].elts) == 2 and all(isinstance(e, ast.Name) for e in par.targets[0].elts)):
+                pair = unpacked_pair(f, cs.node, prog.parents(f))
+                if pair is None:
                     ctx.violate("R5", "result of convert_conventions is not unpacked into (permutation, signs)", f, cs.node)
                     continue
-                pn, sn = (e.id for e in par.targets[0].elts)
+                pn, sn = pair
                 # aliases: `permutation1, signs1 = permutation0, signs0`
                 alias_p, alias_s = {pn}, {sn}
                 for n in f.own_nodes():
